@@ -30,7 +30,8 @@ let cat sep l = Stdlib.String.concat sep l
 (* extended histories (Model/DbExt.v):
      xhist TAB path(,) TAB read-only stacks(,) TAB texts path=text;... TAB op|op|... TAB universe
    a declaration is  D,f,s,F,N,n,v,dir,tk,targ,tag,ext  with tk = d (default) p (path targ) n (none) s (stream, text targ)
-   and ext = src>out+src>out or ~ ; every other op as in hist.
+   and ext = src>out+src>out or ~ ; every other op as in hist.  The tags of the universe are the tags the
+   installation recognises (Model/DbExt.v kstep).
    output per op: outcome#decls#tags#dirs#vfiles#cfiles#resolve#xfiles#neffects with xfiles = path=text;... *)
 let dec_xop (s : Stdlib.String.t) : xop =
   let a = Array.of_list (String.split_on_char ',' s) in
@@ -98,9 +99,11 @@ let handle (f : Stdlib.String.t array) : Stdlib.String.t =
         | _ -> failwith "bad universe") in
     let show x = cat "#" [show_state univ x.xd;
                           cat ";" (List.map (fun (k, v) -> enc_str k ^ "=" ^ enc_str v) x.xfiles)] in
+    (* the tags of the universe are the registered ones: a command naming another tag is refused (kstep) *)
+    let known = snd (fst univ) in
     let x = ref (xempty path) in
     let out = List.map (fun o ->
-        match xstep e !x o with
+        match kstep known e !x o with
         | Ok x' -> x := x'; cat "#" ["ok"; show !x; "0"]
         | Err k -> cat "#" ["err:" ^ err_name k; show !x; "0"]) ops in
     cat "\t" out
